@@ -11,7 +11,10 @@ about optimality is failed only if the answer is wrong under all of these readin
 from __future__ import annotations
 
 import copy
+import json
 import struct
+from array import array
+from collections.abc import Sequence
 from fractions import Fraction
 
 import core
@@ -38,6 +41,11 @@ ASSUMPTIONS = [
     "_greedy_fallback and _to_int_capacity/_scaled (named in the property's anchors) are also called directly: the "
     "fallback's answer must be feasible (tolerance capacity*n*2^-52 for inexact inputs: `remaining -= w` in floats) "
     "and equal to the mirror's; the scaling helpers are compared with the mirror bit for bit",
+    "presentation: the annotated contract is Sequence[float]; list, tuple, array('d'), range, a bare Sequence subclass, "
+    "bool entries and one object passed as both values and weights are all valid inputs with the same meaning (the "
+    "Lean side always receives the canonical numbers); input-not-modified is not a clause of C16",
+    "histories: each call of a history is judged on its own input exactly like a single call; a failure that does not "
+    "occur when the same input is the only call of a fresh process gets the class suffix :after_previous_call",
     "objective = sum of values: exact for dyadic values, otherwise within 1e-9*max(1,|sum|) (float summation)",
     "the floating-point instance of the model (Lean `Float`, same IEEE doubles) is tied by R_trace only; the theorems "
     "are about the same generic code instantiated at Rat (tolerances as parameters, exact statement at 0)",
@@ -51,7 +59,12 @@ RULE = ("knapsack: <=12 items (thorough <=16), values/weights/capacity integers 
         "spellings, zero sizes, items equal to the capacity, exact fills; plus, with a fixed share in both tiers, "
         "multisets of 2-4 distinct sizes (8-40 items, patterns a*x+b*y=C) and the classical bad families for "
         "FFD/BFD/FF (C/2+e, C/4+2e, C/4+e, C/4-2e; big+2 small / 2 mid+small; 1/7,1/3,1/2), each with its planted "
-        "packing (verified by chkPack) so that the 11/9 clause is decidable for any n. Non-trivial = at least one item rejected "
+        "packing (verified by chkPack) so that the 11/9 clause is decidable for any n; presentations of every Sequence "
+        "argument (list, tuple, array('d'), range, a bare collections.abc.Sequence, bool entries, values and weights "
+        "one object); histories of 2-4 consecutive calls in one process on related inputs (same objects with changed "
+        "capacity, minimize/maximize, each heuristic after another, same input twice, changed content, knapsack / "
+        "fallback / bin packing interleaved on one list); a few large instances (40-120 items / 100-400 items, many "
+        "ties). Non-trivial = at least one item rejected "
         "by capacity (knapsack: the items do not all fit but one does; packing: >=2 bins opened with >=3 items); "
         "distinct by canonical case")
 
@@ -99,6 +112,68 @@ def bits(x) -> int:
 
 def unbits(b: int) -> Fraction:
     return Fraction(struct.unpack("<d", struct.pack("<Q", b))[0])
+
+
+# ---------------------------------------------------------------------------
+# presentation of a `Sequence[float]` argument: the contract allows any Sequence and int/float/bool entries
+# ---------------------------------------------------------------------------
+
+class SeqView(Sequence):
+    """a minimal read-only collections.abc.Sequence that is neither list nor tuple"""
+
+    def __init__(self, data):
+        self._d = list(data)
+
+    def __len__(self):
+        return len(self._d)
+
+    def __getitem__(self, i):
+        return SeqView(self._d[i]) if isinstance(i, slice) else self._d[i]
+
+
+STYLES = ["list", "tuple", "array", "seq", "bool", "range"]
+
+
+def present_values(nums, style):
+    """the Python numbers the implementation will see, element by element"""
+    vals = [pyval(x) for x in nums]
+    if style == "bool":
+        vals = [bool(v) if isinstance(v, int) and v in (0, 1) else v for v in vals]
+    elif style == "array":
+        vals = [float(v) for v in vals]
+    return vals
+
+
+def present(nums, style):
+    vals = present_values(nums, style)
+    if style == "tuple":
+        return tuple(vals)
+    if style == "array":
+        return array("d", vals)
+    if style == "seq":
+        return SeqView(vals)
+    if style == "range" and len(vals) >= 2 and all(isinstance(v, int) and not isinstance(v, bool) for v in vals) \
+            and len({b - a for a, b in zip(vals, vals[1:])}) == 1 and vals[1] != vals[0]:
+        return range(vals[0], vals[-1] + (1 if vals[1] > vals[0] else -1), vals[1] - vals[0])
+    return list(vals)
+
+
+def style_of(case, key):
+    return (case.get("style") or {}).get(key, "list")
+
+
+def add_style(rng, case):
+    """fixed share of non-list presentations; `alias`: values and weights are the SAME object when equal"""
+    if case["fn"] == "binpack":
+        if rng.random() < 0.35:
+            case["style"] = {"sizes": rng.choice(STYLES)}
+    elif case["fn"] in ("knapsack", "fallback"):
+        if rng.random() < 0.35:
+            case["style"] = {"values": rng.choice(STYLES), "weights": rng.choice(STYLES)}
+            if case["values"] == case["weights"]:
+                case["style"]["weights"] = case["style"]["values"]
+                case["style"]["alias"] = True
+    return case
 
 
 def num(rng, d, lo, hi, f=None):
@@ -189,6 +264,8 @@ def gen_knap(rng, big: bool):
         wts[i], vals[i] = list(wts[j]), list(vals[j])
     if n and rng.random() < 0.1:
         vals = [[0, 1, False] for _ in range(n)]
+    if n and rng.random() < 0.08:   # subset sum: values equal to weights (allows passing ONE object twice)
+        vals = copy.deepcopy(wts)
     return {"fn": "knapsack", "values": vals, "weights": wts, "capacity": cap, "minimize": minimize}
 
 
@@ -331,6 +408,101 @@ def gen_pack_adversarial(rng, big: bool):
     return _from_bins(rng, bins, C, shuffle=rng.random() < 0.7)
 
 
+def gen_history(rng, big: bool):
+    """2-4 consecutive calls in ONE process on related inputs (equal recipes are the same Python objects)"""
+    kind = rng.choice(["knap_capacity", "knap_minmax", "pack_heuristics", "pack_capacity", "same_twice",
+                       "content_changed", "interleaved"])
+    steps = []
+    if kind.startswith("knap") or kind in ("same_twice", "interleaved") and rng.random() < 0.5:
+        k = gen_knap(rng, False)
+        while not knap_valid(k) or not k["values"] or len(k["values"]) > 12:
+            k = gen_knap(rng, False)
+        add_style(rng, k)
+        steps.append(k)
+        x = k["capacity"]
+        if kind == "knap_capacity":
+            for _ in range(rng.randint(1, 3)):   # narrow -> wide and wide -> narrow on the same lists
+                y = [max(0, x[0] + rng.choice([-3, -2, -1, 1, 2, 3, x[0], -x[0] // 2]) * max(1, x[1] // 4)), x[1], x[2]]
+                steps.append(dict(k, capacity=y))
+        elif kind == "knap_minmax":
+            steps.append(dict(k, minimize=not k["minimize"]))
+            if rng.random() < 0.5:
+                steps.append(dict(k))
+        elif kind == "same_twice":
+            steps.append(dict(k))
+        else:  # interleaved entry points on the same lists
+            steps.append(dict(k, fn="fallback"))
+            if all(frac(w) <= max(frac(x), 0) and frac(w) >= 0 for w in k["weights"]) and frac(x) > 0:
+                algo, flags = _pick_algo(rng)
+                p = {"fn": "binpack", "sizes": k["weights"], "capacity": x, "algorithm": algo, "flags": flags}
+                if k.get("style"):
+                    p["style"] = {"sizes": k["style"]["weights"]}
+                steps.append(p)
+            steps.append(dict(k))
+    else:
+        p = rng.choice([gen_pack, gen_pack_few])(rng, False)
+        while not pack_valid(p) or not p["sizes"]:
+            p = gen_pack(rng, False)
+        add_style(rng, p)
+        steps.append(p)
+        if kind == "pack_heuristics":
+            others = [(u, d_) for u in (False, True) for d_ in (False, True) if [u, d_] != p["flags"]]
+            rng.shuffle(others)
+            for u, d_ in others[:rng.randint(1, 3)]:
+                steps.append(dict(p, algorithm=rng.choice(SPELL[(u, d_)]), flags=[u, d_]))
+        elif kind == "pack_capacity":
+            x = p["capacity"]
+            hi = max(s[0] for s in p["sizes"])
+            for _ in range(rng.randint(1, 2)):
+                q = dict(p, capacity=[max(hi, x[0] + rng.choice([-2, -1, 1, 2, x[0]])), x[1], x[2]])
+                q.pop("planted", None)
+                steps.append(q)
+        elif kind == "content_changed":   # same length, one element changed: a new object of the same shape
+            q = copy.deepcopy(p)
+            i = rng.randrange(len(q["sizes"]))
+            q["sizes"][i] = [rng.randint(0, q["capacity"][0]), q["sizes"][i][1], q["sizes"][i][2]]
+            q.pop("planted", None)
+            steps += [q, dict(p)]
+        else:
+            steps.append(dict(p))
+    return {"fn": "history", "kind": kind, "steps": steps}
+
+
+def gen_large(rng, big: bool):
+    """a few instances several times larger than usual, where the proved DP / chkPack still scale; many ties"""
+    if rng.random() < 0.5:
+        n = rng.randint(40, 120 if big else 80)
+        wmax = rng.choice([3, 10, 30])
+        ties = rng.random() < 0.4
+        wts = [[rng.randint(0 if rng.random() < 0.1 else 1, wmax), 1, False] for _ in range(n)]
+        dv = rng.choice([1, 1, 4])
+        vals = [[rng.randint(0, 20 * dv), dv, False] for _ in range(n)]
+        if ties:
+            wts = [list(wts[i % 3]) for i in range(n)]
+            vals = [list(vals[i % 3]) for i in range(n)]
+        cap = [min(2000, sum(w[0] for w in wts) // rng.choice([2, 3, 5])), 1, False]
+        return add_style(rng, {"fn": "knapsack", "values": vals, "weights": wts, "capacity": cap,
+                               "minimize": rng.random() < 0.15})
+    C = rng.choice([100, 1000])
+    target = rng.randint(100, 400 if big else 200)
+    mode = rng.randrange(3)
+    bins, n = [], 0
+    while n < target:
+        if mode == 0:      # all items equal
+            pat = [C // 3] * 3
+        elif mode == 1:    # few distinct sizes
+            pat = rng.choice([[C // 2, C // 4, C // 4], [C // 2 + 1, C // 2 - 1], [C // 5] * 5, [C * 3 // 5, C // 5]])
+        else:
+            pat, rem = [], C
+            while rem > 0 and len(pat) < 6:
+                z = rng.randint(1, rem)
+                pat.append(z)
+                rem -= z
+        bins.append(pat)
+        n += len(pat)
+    return add_style(rng, _from_bins(rng, bins, C))
+
+
 def N(k, d=1, f=False):
     return [k, d, f]
 
@@ -361,18 +533,29 @@ def edge_cases():
 # implementation side (runs in a worker process)
 # ---------------------------------------------------------------------------
 
-def impl(case):
+def _obj(pool, role, nums, style, alias=False):
+    """the presented argument; inside a history equal recipes give the SAME object again"""
+    key = ("" if alias else role, json.dumps(nums), style)
+    if pool is None:
+        return present(nums, style)
+    if key not in pool:
+        pool[key] = present(nums, style)
+    return pool[key]
+
+
+def run_step(case, pool=None):
+    st = case.get("style") or {}
     if case["fn"] in ("fallback", "intcap"):
         try:
             from solvor.knapsack import _greedy_fallback, _scaled, _to_int_capacity
         except ImportError:
             return {"unavailable": True}
-        w = [pyval(x) for x in case["weights"]]
+        w = _obj(pool, "w", case["weights"], st.get("weights", "list"), st.get("alias", False))
         c = pyval(case["capacity"])
         if case["fn"] == "intcap":
             ic, scale = _to_int_capacity(c, w)
             return {"int_cap": ic, "scale": core.fbits(float(scale)), "scaled": [list(_scaled(x, scale)) for x in w]}
-        v = [pyval(x) for x in case["values"]]
+        v = _obj(pool, "v", case["values"], st.get("values", "list"), st.get("alias", False))
         r = _greedy_fallback(v, w, c, case["minimize"])
         sol = r.solution
         ok_shape = isinstance(sol, tuple) and all(isinstance(i, int) and not isinstance(i, bool) for i in sol)
@@ -380,25 +563,36 @@ def impl(case):
                 "objective": core.rat(r.objective)}
     if case["fn"] == "knapsack":
         from solvor.knapsack import solve_knapsack
-        v = [pyval(x) for x in case["values"]]
-        w = [pyval(x) for x in case["weights"]]
+        v = _obj(pool, "v", case["values"], st.get("values", "list"), st.get("alias", False))
+        w = _obj(pool, "w", case["weights"], st.get("weights", "list"), st.get("alias", False))
         c = pyval(case["capacity"])
-        v0, w0 = copy.deepcopy(v), copy.deepcopy(w)
         r = solve_knapsack(v, w, c, minimize=case["minimize"])
         sol = r.solution
         ok_shape = isinstance(sol, tuple) and all(isinstance(i, int) and not isinstance(i, bool) for i in sol)
         return {"status": r.status.name, "sol": list(sol) if ok_shape else repr(sol), "shape": ok_shape,
-                "objective": core.rat(r.objective), "unchanged": v == v0 and w == w0}
+                "objective": core.rat(r.objective)}
     from solvor.bin_pack import solve_bin_pack
-    s = [pyval(x) for x in case["sizes"]]
+    s = _obj(pool, "w", case["sizes"], st.get("sizes", "list"))   # role "w": shared with a knapsack's weights
     c = pyval(case["capacity"])
-    s0 = copy.deepcopy(s)
     kw = {} if case["algorithm"] is None else {"algorithm": case["algorithm"]}
     r = solve_bin_pack(s, c, **kw)
     sol = r.solution
     ok_shape = isinstance(sol, tuple) and all(isinstance(i, int) and not isinstance(i, bool) and i >= 0 for i in sol)
     return {"status": r.status.name, "sol": list(sol) if ok_shape else repr(sol), "shape": ok_shape,
-            "objective": core.rat(r.objective), "unchanged": s == s0}
+            "objective": core.rat(r.objective)}
+
+
+def impl(case):
+    """one call, or - for a history - the consecutive calls of its steps in this one process, sharing objects"""
+    if case["fn"] != "history":
+        return run_step(case)
+    pool, outs = {}, []
+    for step in case["steps"]:
+        try:
+            outs.append(("ok", run_step(step, pool)))
+        except BaseException as e:  # noqa: BLE001 - the error kind is an observable
+            outs.append(("err", f"{type(e).__name__}: {e}"[:300]))
+    return outs
 
 
 # ---------------------------------------------------------------------------
@@ -448,13 +642,14 @@ def to_request(case, out):
     if case["fn"] == "fallback":
         return ["fallback", [rat(x) for x in case["weights"]], [rat(x) for x in case["values"]], fr(fallback_cap(case)),
                 [bits(x) for x in case["weights"]], [bits(x) for x in case["values"]], bits(case["capacity"]),
-                [isinstance(pyval(x), int) for x in case["values"]], bool(case["minimize"]),
-                res["sol"] if res else None]
+                [isinstance(v, int) for v in present_values(case["values"], style_of(case, "values"))],
+                bool(case["minimize"]), res["sol"] if res else None]
     if case["fn"] == "knapsack":
         return ["knap", [rat(x) for x in case["weights"]], [rat(x) for x in case["values"]],
                 [fr(c) for c in knap_caps(case)],
                 [bits(x) for x in case["weights"]], [bits(x) for x in case["values"]], bits(case["capacity"]),
-                [isinstance(pyval(x), int) for x in case["weights"]], [isinstance(pyval(x), int) for x in case["values"]],
+                [isinstance(v, int) for v in present_values(case["weights"], style_of(case, "weights"))],
+                [isinstance(v, int) for v in present_values(case["values"], style_of(case, "values"))],
                 bool(case["minimize"]), res["sol"] if res else None, res["objective"] if res else None]
     k = None
     if res:
@@ -500,6 +695,13 @@ def judge_knap(ctx, case, out, reply):
     ctx.count("knap:" + ("malformed" if not valid else "integer" if integer else "exact_fraction" if C_feas == C
                          else "inexact"))
     ctx.count("knap:minimize" if case["minimize"] else "knap:maximize")
+    if case.get("style"):
+        ctx.count("present:values:" + style_of(case, "values"))
+        ctx.count("present:weights:" + style_of(case, "weights"))
+        if case["style"].get("alias"):
+            ctx.count("present:values_is_weights_same_object")
+    if len(case["values"]) > 20:
+        ctx.count("large:knapsack")
     canon = ["k", case["values"], case["weights"], case["capacity"], case["minimize"]]
     if out[0] != "ok":
         kind = err_kind(out)
@@ -522,8 +724,6 @@ def judge_knap(ctx, case, out, reply):
         ctx.fail(fn, "bad_solution_shape", f"solution is not a tuple of ints: {r['sol']}", rep)
         ctx.case(canon, False)
         return
-    if not r["unchanged"]:
-        ctx.fail(fn, "input_modified", "input sequences were modified", rep)
     if r["status"] not in ("OPTIMAL", "FEASIBLE"):
         ctx.fail(fn, "bad_status", f"unexpected status {r['status']}", rep)
     feas, full, sel_w, sel_v = chk
@@ -545,10 +745,14 @@ def judge_knap(ctx, case, out, reply):
     elif abs(obj - sel_v) > Fraction(1, 10**9) * max(1, abs(sel_v)):
         ctx.fail(fn, "objective_mismatch", f"objective {float(obj)} differs from the sum of selected values {sel_v} "
                  "by more than 1e-9", rep)
-    if best_o is None or best_s is None:
-        raise RuntimeError(f"knapBest undefined on a valid case: {case}")
-    best_o, best_s = core.unrat(best_o), core.unrat(best_s)
     sign = -1 if case["minimize"] else 1
+    if best_o is None or best_s is None:
+        # more than 20 items: no 2^n enumeration; the optimum is the proved DP's (integer weights/capacity only)
+        if n <= 20 or dp is None or C_feas != C:
+            raise RuntimeError(f"no optimum available on a valid case: {case}")
+        best_o = best_s = dp[1]
+        ctx.count("knap:large_optimum_from_proved_dp")
+    best_o, best_s = core.unrat(best_o), core.unrat(best_s)
     if dp is not None and core.unrat(dp[1]) != best_s:
         raise RuntimeError(f"proved DP value {dp[1]} != definitional optimum {best_s}: {case}")
     if feas and C_feas == C and sign * sel_v > best_s:
@@ -625,6 +829,10 @@ def judge_pack(ctx, case, out, reply):
     name = ("best" if ub else "first") + "-fit" + ("-decreasing" if dec_ else "")
     caps = pack_caps(case)
     ctx.count("pack:" + ("malformed" if not valid else name))
+    if case.get("style"):
+        ctx.count("present:sizes:" + style_of(case, "sizes"))
+    if n > 60:
+        ctx.count("large:binpack")
     canon = ["p", case["sizes"], case["capacity"], case["algorithm"]]
     if out[0] != "ok":
         kind = err_kind(out)
@@ -675,8 +883,6 @@ def judge_pack(ctx, case, out, reply):
         ctx.fail(fn, "bad_solution_shape", f"solution is not a tuple of non-negative ints: {r['sol']}", rep)
         ctx.case(canon, False)
         return
-    if not r["unchanged"]:
-        ctx.fail(fn, "input_modified", "item_sizes was modified", rep)
     if r["status"] not in ("OPTIMAL", "FEASIBLE"):
         ctx.fail(fn, "bad_status", f"unexpected status {r['status']}", rep)
     obj = core.unrat(r["objective"])
@@ -799,13 +1005,34 @@ def judge(ctx, case, out, reply):
 
 
 def evaluate(cases):
+    """[(out, reply)] per case; for a history case a list of (out, reply), one per step"""
     outs = run_pool(impl, cases, timeout=60.0)
-    reqs = [to_request(c, o) for c, o in zip(cases, outs)]
+    flat, reqs = [], []
+    for c, o in zip(cases, outs):
+        if c["fn"] == "history":
+            steps = c["steps"]
+            so = o[1] if o[0] == "ok" else [o] * len(steps)   # the whole worker died / timed out
+            for st, x in zip(steps, so):
+                x = tuple(x)
+                flat.append((c, x))
+                reqs.append(to_request(st, x))
+        else:
+            flat.append((c, o))
+            reqs.append(to_request(c, o))
     replies = Driver("Pack").run(reqs, chunks=16)
-    for c, rp in zip(cases, replies):
+    for (c, _), rp in zip(flat, replies):
         if rp and rp[0] == "error":
             raise RuntimeError(f"model rejected request: {rp} for {c}")
-    return list(zip(outs, replies))
+    res, k = [], 0
+    for c in cases:
+        if c["fn"] == "history":
+            m = len(c["steps"])
+            res.append([(flat[k + j][1], replies[k + j]) for j in range(m)])
+            k += m
+        else:
+            res.append((flat[k][1], replies[k]))
+            k += 1
+    return res
 
 
 # ---------------------------------------------------------------------------
@@ -839,7 +1066,7 @@ class Collect:
 def smaller(case):
     """candidate simplifications, most drastic first"""
     out = []
-    if case["fn"] == "intcap":
+    if case["fn"] in ("intcap", "history"):
         return out
     if case["fn"] in ("knapsack", "fallback"):
         n = min(len(case["values"]), len(case["weights"]))
@@ -904,10 +1131,38 @@ def shrink(case, fn, klass, rounds=60):
     return cur, best
 
 
+def fails_alone(step, fn, klass):
+    """does the step fail the same clause when it is the only call of a fresh process?"""
+    (o, rp), = evaluate([step])
+    p = Collect()
+    judge(p, step, o, rp)
+    return any((x[0], x[1]) == (fn, klass) for x in p.fails)
+
+
 def run_cases(ctx, cases, do_shrink=True):
     col = Collect(ctx)
-    for c, (o, rp) in zip(cases, evaluate(cases)):
-        judge(col, c, o, rp)
+    hist_fails = []
+    for c, res in zip(cases, evaluate(cases)):
+        if c["fn"] == "history":
+            ctx.count("history:calls", len(c["steps"]))
+            ctx.count("history:" + c.get("kind", "mixed"))
+            for i, (st, (o, rp)) in enumerate(zip(c["steps"], res)):
+                hc = Collect(ctx)
+                judge(hc, st, o, rp)
+                for fn, klass, what, rep in hc.fails:
+                    hist_fails.append((fn, klass, what, {"case": c, "step": i, "impl": rep["impl"], "model": rep["model"]},
+                                       st))
+        else:
+            judge(col, c, *res)
+    for fn, klass, what, rep, st in hist_fails[:6]:
+        # each call of a history is judged on its own input; a failure that does not occur when the same input is the
+        # only call of a fresh process is caused by the earlier calls (stale cache, left-over state, shared objects)
+        if not fails_alone(st, fn, klass):
+            klass += ":after_previous_call"
+            what = f"call {rep['step'] + 1} of {len(rep['case']['steps'])} in one process: " + what
+        ctx.fail(fn, klass, what, rep)
+    for fn, klass, what, rep, st in hist_fails[6:]:
+        ctx.fail(fn, klass, what, rep)
     budget = 4  # shrink the first few distinct (function, class) pairs only
     seen = set()
     for fn, klass, what, rep in col.fails:
@@ -915,6 +1170,10 @@ def run_cases(ctx, cases, do_shrink=True):
                 and not klass.startswith("raises:Timeout"):
             seen.add((fn, klass))
             budget -= 1
+            if not fails_alone(rep["case"], fn, klass):
+                # the worker had served other cases before: state left behind by an earlier call
+                ctx.fail(fn, klass + ":after_previous_call", "after earlier calls in the same process: " + what, rep)
+                continue
             small, f = shrink(rep["case"], fn, klass)
             if f is not None:
                 what, rep = f[2], dict(f[3], original_case=rep["case"])
@@ -934,16 +1193,20 @@ def run(ctx, budget):
     n = 1200 * budget
     big = ctx.tier == "thorough"
     for i in range(n):
-        k = gen_knap(ctx.rng, big and i % 4 == 0)
+        k = add_style(ctx.rng, gen_knap(ctx.rng, big and i % 4 == 0))
         cases.append(k)
-        cases.append(gen_pack(ctx.rng, big and i % 4 == 0))
+        cases.append(add_style(ctx.rng, gen_pack(ctx.rng, big and i % 4 == 0)))
         if i % 6 == 0:
-            cases.append(gen_pack_few(ctx.rng, big))
+            cases.append(add_style(ctx.rng, gen_pack_few(ctx.rng, big)))
         if i % 12 == 1:
-            cases.append(gen_pack_adversarial(ctx.rng, big))
+            cases.append(add_style(ctx.rng, gen_pack_adversarial(ctx.rng, big)))
+        if i % 5 == 2:
+            cases.append(gen_history(ctx.rng, big))
+        if i % 60 == 7:
+            cases.append(gen_large(ctx.rng, big))
         if i % 3 == 0 and knap_valid(k) and k["values"]:   # the helpers named in the property's anchors, directly
             cases.append(dict(k, fn="fallback"))
-            cases.append({"fn": "intcap", "weights": k["weights"], "capacity": k["capacity"]})
+            cases.append({"fn": "intcap", "weights": k["weights"], "capacity": k["capacity"], "style": k.get("style")})
     run_cases(ctx, cases)
 
 
